@@ -438,14 +438,27 @@ def handle(req):
     if op == "cover":
         # utils.get_weighted_cover on a batch of (event sets, universe); None / the cover as sorted lists
         from tel2puml.utils import get_weighted_cover
-        out = []
+        from tel2puml.events import EventSet
+        from tel2puml.logic_detection import process_missing_and_gates, Operator
+        from pm4py.objects.process_tree.obj import ProcessTree
+        out, trees = [], []
         for sets, uni in req["inputs"]:
             try:
                 r = get_weighted_cover({frozenset(x) for x in sets}, frozenset(uni))
                 out.append(None if r is None else sorted(sorted(x) for x in r))
             except BaseException as ex:
                 out.append({"error": f"{type(ex).__name__}: {str(ex)[:120]}"})
-        return {"results": out}
+            # the caller: an OR over the universe's events, rebuilt from the cover of the observed sets below it
+            try:
+                root = ProcessTree(Operator.OR, None, [])
+                root.children = [ProcessTree(label=x, parent=root) for x in uni]
+                process_missing_and_gates({EventSet(list(x)) for x in sets}, root)
+                trees.append(sorted(sorted(str(g.label) for g in ch.children) if ch.operator is not None
+                                    else [str(ch.label)] for ch in root.children)
+                             + [str(root.operator.value)])
+            except BaseException as ex:
+                trees.append({"error": f"{type(ex).__name__}: {str(ex)[:120]}"})
+        return {"results": out, "trees": trees}
     if op == "ingest":
         if "flat" in req:
             # one flat stream of events, jobs interleaved: clustered by the project's own cluster_events_by_job_id
